@@ -30,6 +30,8 @@ def sources(chk: Check, tier: str):
              ("lexE-for", "expr-small", 3, "{% for i in ", " %}{{ i }}{% endfor %}"),
              ("lexE-cycle", "expr-small", 3 if not thorough else 4, "{% cycle ", ", 'b' %}"),
              ("lexE-interp", "expr-small", 3 if not thorough else 4, "{{ 'a${ ", " }b' }}"),
+             # a bracket left open in one output must not reach into the next one
+             ("lexE-open-bracket", "expr-small", 3 if not thorough else 4, "{{ a[b }}|{{ x", " }}"),
              ("lexE-liquid", "expr-small", 2 if not thorough else 3, "{% liquid echo ", "\n assign y = 1 %}")]
     lines = []
     for focus, alpha, n, pre, suf in plans:
